@@ -89,13 +89,14 @@ func verifyFunctions(P *Program, L *Library, keys []string, opt solveOpts) []*Fu
 	type item struct {
 		fr *FuncResult
 	}
+	var all []*Obligation
 	for _, fr := range out {
-		o := opt
-		if o.workDir != "" {
-			o.workDir = filepath.Join(opt.workDir, strings.NewReplacer("/", "_", "*", "P", "(", "", ")", "").Replace(fr.Key))
+		for _, o := range fr.Obls {
+			o.Prelude = &fr.Prelude
+			all = append(all, o)
 		}
-		solveAll(fr.Prelude, fr.Obls, o)
 	}
+	solvePool(all, opt)
 	return out
 }
 
